@@ -275,7 +275,7 @@ func containsReturn(list []ast.Stmt) bool {
 			if _, ok := isTry(x); ok {
 				return false
 			}
-			if _, _, ok := tryPattern(x); ok {
+			if _, _, ok := tryPattern(x); ok && !stvMode5 { // translate5.go: with the error as a value the return is a real exit
 				return false
 			}
 		case *ast.ReturnStmt:
@@ -300,6 +300,8 @@ func (t *tr) resInner() string {
 		return "Go.Cell"
 	case "parser":
 		return "PRes"
+	case "st":
+		return t.stInner5() // translate5.go
 	}
 	var tys []string
 	for _, ty := range t.retTys {
@@ -318,13 +320,22 @@ func (t *tr) resInner() string {
 func (t *tr) forStmtCtl(x *ast.ForStmt, fuel string) []string {
 	var out []string
 	if x.Init != nil {
+		defer t.endForScope5(len(t.env))() // translate5.go: the variable of the init statement ends with the loop
 		out = append(out, t.simple(x.Init)...)
+	}
+	if fuel == "" {
+		fuel = t.bufFuel5() // translate5.go: a loop over a buffer
 	}
 	if fuel == "" {
 		return append(out, t.fail(x, "loop without a fuel bound"))
 	}
 	asg := assignedNames([]ast.Node{x.Body, x.Post})
 	use := usedNames([]ast.Node{x.Cond, x.Body, x.Post})
+	if t.retKind == "st" {
+		for _, sv := range t.stVars {
+			use[sv] = true // translate5.go: a `return` inside the loop hands back the state
+		}
+	}
 	var carried, params []varInfo
 	for _, v := range t.env {
 		switch {
@@ -442,6 +453,8 @@ func (t *tr) retCtl(x *ast.ReturnStmt) []string {
 		if len(x.Results) == 1 && exprString(x.Results[0]) == "nil" {
 			return []string{".ok (.ret " + leanIdent(t.msgVar) + ")"}
 		}
+	case "st":
+		return t.retCtlSt5(x) // translate5.go
 	}
 	return []string{t.fail(x, "this return inside a loop")}
 }
